@@ -112,8 +112,16 @@ func transparentCallee(in ssa.Instruction) *ssa.Function {
 		for _, i := range b.Instrs {
 			switch x := i.(type) {
 			case *ssa.Defer:
-				// deferred unlocks of the helper's own lock are fine for path reasoning: they run at the helper's return
-				_ = x
+				// deferred unlocks of the helper's own lock are fine for path reasoning: they run at the helper's return.
+				// Any other deferred call runs when the helper returns, not when the function it is read in returns: rules
+				// that take a defer as "runs at the exit" would misread it, so such a helper is not looked through
+				switch CalleeName(x) {
+				case "(*sync.Mutex).Unlock", "(*sync.RWMutex).Unlock", "(*sync.RWMutex).RUnlock":
+				default:
+					if os.Getenv("WM_LAX_DEFER") == "" {
+						return nil
+					}
+				}
 			}
 		}
 	}
